@@ -9,7 +9,9 @@
 // DER walker, and specification-derived reference computations in Python
 // (ref/py/c05ref.py): Authenticode PE image hash + page hashes, PE CheckSum,
 // APK v2 chunked digest, MSI stream-order digest (+ MsiDigitalSignatureEx),
-// CAB digest, script digest, RPM header digests, deb signature block.
+// CAB digest, script digest, RPM header digests, deb signature block; Apple code
+// signatures (Mach-O, UDIF), xar archives and cosign payloads are read and
+// recomputed by harness-owned Go readers written from the published layouts.
 //
 // Development knobs (never needed by ./check): C05_KNOWN_EXTRA=key1,key2 treats
 // these violation keys as known; C05_ONLY=jar,pe,... restricts the formats;
@@ -197,6 +199,18 @@ func main() {
 	if only("other") {
 		planOther(thorough, x509Keys)
 	}
+	if only("macho") {
+		planMacho(thorough)
+	}
+	if only("dmg") {
+		planDmg(thorough)
+	}
+	if only("xar") {
+		planXar(thorough)
+	}
+	if only("cosign") {
+		planCosign(thorough)
+	}
 
 	// heavier formats first so that the tail of the run is made of cheap cases
 	var skipped int64
@@ -250,26 +264,34 @@ func main() {
 	tallyMu.Unlock()
 	run.Set("bounds", boundsText(thorough))
 	run.Set("time_budget_s", budget.Seconds())
-	run.Rule("every member of each stated finite product (shape family x keys x digests x flags, per format and tier; see bounds and planned_cases) is signed by relic's real pipeline and judged by every oracle applicable to the format; distinct_nontrivial counts distinct (format, shape, key, digest, flags, timestamp) cases that relic signed AND its own verifier accepted (the precondition), i.e. cases on which the outside oracles actually ran; refused combinations and precondition failures are tallied separately and are not violations of this property")
+	run.Rule("every member of each stated finite product (shape family x keys x digests x flags, per format and tier; see bounds and planned_cases) is signed by relic's real pipeline and judged by every oracle applicable to the format; distinct_nontrivial counts distinct (format, shape, key, digest, flags, timestamp) cases that relic signed AND its own verifier accepted (the precondition), i.e. cases on which the outside oracles actually ran; refused combinations and precondition failures are tallied separately and are not violations of this property. macho / dmg / xar / cosign: the oracle is a harness-owned reader plus reference computation (csblob.go, dmg.go, xar.go, cosign.go) and OpenSSL; recomputed:<type> counts the code-page, special-slot and member digests that were recomputed and compared")
 	run.Assume("JDK 17 java.util.jar / javax.xml.crypto, OpenSSL 3.x cms/dgst/ts, GnuPG 2.2 gpgv and dpkg-deb implement their standards; the JDK's deployment policy entry that disables SHA-1 in signed JARs is switched off for the reference JVMs (policy, not format conformance)")
 	run.Assume("the Python reference computations follow the published descriptions (Authenticode_PE, PE/COFF, APK Signature Scheme v2, MS-CFB + the MSI/CAB/script digests as implemented by the Windows SIPs and osslsigncode); the PE image hash and CheckSum, the RPM header digests and the VSIX validator are additionally validated at start-up against genuine third-party signatures (signtool, Rocky Linux, Visual Studio); no third-party signed MSI, CAB, APK-v2 or PowerShell sample exists in the sandbox, for those the reference stands on the specification alone")
-	run.Assume("apksigner, signtool/osslsigncode, rpm/rpmkeys and dpkg-sig are not installed; macho, dmg, xar and cosign have no outside verifier in the sandbox and are not enumerated here (C16 covers their CMS structures)")
+	run.Assume("apksigner, signtool/osslsigncode, rpm/rpmkeys and dpkg-sig are not installed")
+	run.Assume("macho, dmg: Apple's codesign / Security.framework are not in the sandbox. What they compute is reproduced by a harness-owned reader and reference written from the published layout (xnu cs_blobs.h, <mach-o/loader.h>, the UDIF koly trailer): SuperBlob and CodeDirectory structure, codeLimit = start of the signature, every code-page hash, every special-slot hash (1 Info.plist, 2 requirements, 3 resource directory, 5 entitlements, 6 koly trailer with the signature length blanked, 7 DER entitlements), the two cdhash attributes; the CMS blob goes to `openssl cms -verify` with the primary CodeDirectory as detached content. The reference is validated at start-up on the two ad-hoc signatures Apple's codesign left in functest/packages/fatfile.app (28 code pages with a short last page, 10 special slots); there is no sample with an Apple CMS signature and no Apple-signed disk image: the cdhash attributes (OID 1.2.840.113635.100.9.1/.2) and the UDIF special slot 6 stand on the published layout alone")
+	run.Assume("macho, dmg: NOT decided here, because only Apple's implementation defines it: whether the designated requirement relic generates by default evaluates to true for the signing certificate (requirement language evaluation), whether Gatekeeper/AMFI policy accepts a CodeDirectory of version 0x20300 that sets CS_RUNTIME without the 0x20500 runtime-version field, an empty signing identifier (no --bundle-id, no --info-plist), XML entitlements without a DER twin, notarization tickets, and the Apple-specific certificate policy (Developer ID extensions, Apple root). The signature offset is 8- but not always 16-aligned (tallied as outcome class macho:signature-offset-mod-16=8): codesign_allocate aligns to 16 according to the Go linker's sources; the loader layout rules checked here do not require it")
+	run.Assume("xar: pkgutil / productsign / xar(1) are not in the sandbox. Reader written from the xar format description (header, zlib TOC, heap); Go's compress/zlib, encoding/xml and crypto plus `openssl pkeyutl -verify` (classic RSA signature: DigestInfo carrying the TOC checksum) and `openssl cms -verify` (x-signature over the checksum bytes as detached content, chain from the embedded certificates); validated at start-up on Apple's productbuild output dummy.pkg (TOC checksum and 8 member checksums), which is unsigned: the placement and encoding of the signature elements stand on the format description alone. Not decided: Apple's installer trust policy and the RFC 3161 token placement it expects")
+	run.Assume("cosign: the cosign CLI / sigstore libraries are not in the sandbox and relic has no verifier for this type. Decided with encoding/json + OpenSSL: digest of the given manifest = payload critical.image.docker-manifest-digest = subject descriptor; layer descriptor describes the payload; `openssl dgst -<h> -verify <leaf public key>` over the payload bytes; `openssl verify` of the certificate/chain annotations to the root; `openssl ts -verify` of the token over the signature bytes. Not decided: whether cosign reads the dev.sigstore.cosign/rfc3161timestamp annotation in the encoding relic writes (bare base64 of the token; current cosign documents a JSON object holding a TimeStampResp), registry referrers behaviour, sigstore bundle / transparency-log policy")
 	os.RemoveAll(tmp)
 	run.Finish()
 }
 
 func boundsText(thorough bool) map[string]any {
 	return map[string]any{
-		"jar":   "shapes: members 1..3 x (stored|deflated) x size {0,1,8192} (258) + name family (manifest line lengths 64..76 ASCII, 150, 230; 2/3/4-byte UTF-8 sequence at every byte offset 64..78 of the Name line; 60 three-byte characters; blanks and colon; META-INF/services member). + 7 input-manifest spellings (LF, CR, no final blank line, minimal, existing sections, folded main attribute). quick: all shapes x {rsaA,p256A} x sha256 x 4 flag sets  U  3 canonical shapes x keys{rsaA,p256A,p384} x digests{sha1,sha256,sha384,sha512} x {inline-signature} x {sections-only} (+openssl cms; jarsigner CLI on 2 canonical shapes x keys x sha256 x 4 flag sets; RFC 3161 on 1 canonical shape x {rsaA,p256A} x {default, inline-signature}). thorough: all shapes x keys+p521 x {sha256,sha1,sha384,sha512} x 4 flag sets  U  canonical x keys+p521 x digests+sha224 x 4 flag sets (CLI also with sha1, sha512; RFC 3161 for every key)",
-		"apk":   "shapes: 7 small (one with ZIP64 end records no field needs; AndroidManifest.xml + META-INF/MANIFEST.MF + stored/deflated/empty members; one without a JAR manifest) + section-1 length exactly {1MiB-1, 1MiB, 1MiB+1, 2MiB-1, 2MiB, 2MiB+1, 2MiB+4097} (v2-only packages hit these exactly; v1+v2 packages are near them, the class reached is tallied) x {v2-only, v1+v2} x keys x {sha256,sha512}; sha1 and sha384 on one shape (expected refusals)",
-		"pe":    "shapes: {PE32,PE32+} x sections 1..3 x raw size {512,4096,4608} x overlay {0,1,7,8,9} x input CheckSum field {zero, correct for the unsigned image} (780) + e_lfanew family {64,68,72,248,512,4008,4006, CheckSum field at 32768-8..32768+4 and 65536-8..65536+4} x {PE32,PE32+} x overlay {0,1} x input CheckSum {zero, correct} (264) + 2 .NET fixtures. quick: all shapes x rsaA x sha256 x {page-hashes off,on} (+p256A on every one-section shape, which includes the e_lfanew family)  U  4 canonical shapes x keys x digests{sha1,sha256,sha384,sha512} x page-hashes (+openssl dgst)  U  canonical x {already signed by rsaB, generator-written certificate table holding a foreign PKCS#7}  U  RFC 3161 on 1 shape x {rsaA,p256A}. thorough: all shapes x {rsaA,p256A,p384} x {sha256,sha1,sha384,sha512} x page-hashes (sha384/sha512 with page hashes are refused by relic and tallied)",
-		"ps":    "texts: {CRLF,LF,CR-only} x {final newline, none}, one line, blank lines (+3 non-ASCII texts for BOM encodings, one whose UTF-16 code units contain a 0x0A byte) x encoding {ASCII, UTF-8 BOM, UTF-16LE BOM} x style {.ps1,.ps1xml,.mof} (90) x keys x digests{sha1,sha256,sha384,sha512}",
-		"cab":   "dummy.cab + generated single-folder uncompressed cabinets with file sizes {[1],[100],[40000],[1,100],[32768,1]} x keys x digests{sha1,sha256,sha384,sha512}",
-		"msi":   "dummy.msi + cfbgen families names, storage, nested-signame, layout, sizes(quick: <=2 streams; thorough: <=3 + dircount + fatfull). quick: all shapes x rsaA x sha256 x {extended, no-extended-sig}  U  dummy.msi x keys x digests x both. thorough: all shapes x {rsaA,p256A,p384} x {sha256,sha1,sha384,sha512} x both",
-		"xml":   "appmanifest fixture x keys x digests{sha1,sha256,sha384,sha512} (+RFC 3161 x {rsaA,p256A}; + the fixture with every extension subtree binding / re-binding / using an unknown prefix at three levels, rsaA sha256); VSIX fixture x keys x digests(+sha224 thorough) x {detach-certs}",
-		"pgp":   "16 texts (final newline or not; five sizes around the packet-length encoding boundaries, trailing blanks, dash lines, CRLF, mixed endings, empty, newline only, trailing blank lines, UTF-8, 5000-char line) x all 16 subsets of {armor,inline,clearsign,textmode} x keys {rsaA (+rsaB thorough)} x digests {sha256,sha512 (+sha1,sha224,sha384 thorough)}; p256A on 2 cases (expected refusal). deb: fixture + 2 generated packages x role {builder,origin,maint,archive} x digests {sha256,sha512} (+ a second role added on top); rpm: rocky fixture x {rsaA,rsaB} x {sha1,sha256,sha512}",
-		"other": "cat (hyperv.cat), appx (App1), xap (dummy.xap) x keys x sha256 (+RFC 3161 on rsaA): CMS checks only",
-		"tier":  map[bool]string{false: "quick", true: "thorough"}[thorough],
+		"jar":    "shapes: members 1..3 x (stored|deflated) x size {0,1,8192} (258) + name family (manifest line lengths 64..76 ASCII, 150, 230; 2/3/4-byte UTF-8 sequence at every byte offset 64..78 of the Name line; 60 three-byte characters; blanks and colon; META-INF/services member). + 7 input-manifest spellings (LF, CR, no final blank line, minimal, existing sections, folded main attribute). quick: all shapes x {rsaA,p256A} x sha256 x 4 flag sets  U  3 canonical shapes x keys{rsaA,p256A,p384} x digests{sha1,sha256,sha384,sha512} x {inline-signature} x {sections-only} (+openssl cms; jarsigner CLI on 2 canonical shapes x keys x sha256 x 4 flag sets; RFC 3161 on 1 canonical shape x {rsaA,p256A} x {default, inline-signature}). thorough: all shapes x keys+p521 x {sha256,sha1,sha384,sha512} x 4 flag sets  U  canonical x keys+p521 x digests+sha224 x 4 flag sets (CLI also with sha1, sha512; RFC 3161 for every key)",
+		"apk":    "shapes: 7 small (one with ZIP64 end records no field needs; AndroidManifest.xml + META-INF/MANIFEST.MF + stored/deflated/empty members; one without a JAR manifest) + section-1 length exactly {1MiB-1, 1MiB, 1MiB+1, 2MiB-1, 2MiB, 2MiB+1, 2MiB+4097} (v2-only packages hit these exactly; v1+v2 packages are near them, the class reached is tallied) x {v2-only, v1+v2} x keys x {sha256,sha512}; sha1 and sha384 on one shape (expected refusals)",
+		"pe":     "shapes: {PE32,PE32+} x sections 1..3 x raw size {512,4096,4608} x overlay {0,1,7,8,9} x input CheckSum field {zero, correct for the unsigned image} (780) + e_lfanew family {64,68,72,248,512,4008,4006, CheckSum field at 32768-8..32768+4 and 65536-8..65536+4} x {PE32,PE32+} x overlay {0,1} x input CheckSum {zero, correct} (264) + 2 .NET fixtures. quick: all shapes x rsaA x sha256 x {page-hashes off,on} (+p256A on every one-section shape, which includes the e_lfanew family)  U  4 canonical shapes x keys x digests{sha1,sha256,sha384,sha512} x page-hashes (+openssl dgst)  U  canonical x {already signed by rsaB, generator-written certificate table holding a foreign PKCS#7}  U  RFC 3161 on 1 shape x {rsaA,p256A}. thorough: all shapes x {rsaA,p256A,p384} x {sha256,sha1,sha384,sha512} x page-hashes (sha384/sha512 with page hashes are refused by relic and tallied)",
+		"ps":     "texts: {CRLF,LF,CR-only} x {final newline, none}, one line, blank lines (+3 non-ASCII texts for BOM encodings, one whose UTF-16 code units contain a 0x0A byte) x encoding {ASCII, UTF-8 BOM, UTF-16LE BOM} x style {.ps1,.ps1xml,.mof} (90) x keys x digests{sha1,sha256,sha384,sha512}",
+		"cab":    "dummy.cab + generated single-folder uncompressed cabinets with file sizes {[1],[100],[40000],[1,100],[32768,1]} x keys x digests{sha1,sha256,sha384,sha512}",
+		"msi":    "dummy.msi + cfbgen families names, storage, nested-signame, layout, sizes(quick: <=2 streams; thorough: <=3 + dircount + fatfull). quick: all shapes x rsaA x sha256 x {extended, no-extended-sig}  U  dummy.msi x keys x digests x both. thorough: all shapes x {rsaA,p256A,p384} x {sha256,sha1,sha384,sha512} x both",
+		"xml":    "appmanifest fixture x keys x digests{sha1,sha256,sha384,sha512} (+RFC 3161 x {rsaA,p256A}; + the fixture with every extension subtree binding / re-binding / using an unknown prefix at three levels, rsaA sha256); VSIX fixture x keys x digests(+sha224 thorough) x {detach-certs}",
+		"pgp":    "16 texts (final newline or not; five sizes around the packet-length encoding boundaries, trailing blanks, dash lines, CRLF, mixed endings, empty, newline only, trailing blank lines, UTF-8, 5000-char line) x all 16 subsets of {armor,inline,clearsign,textmode} x keys {rsaA (+rsaB thorough)} x digests {sha256,sha512 (+sha1,sha224,sha384 thorough)}; p256A on 2 cases (expected refusal). deb: fixture + 2 generated packages x role {builder,origin,maint,archive} x digests {sha256,sha512} (+ a second role added on top); rpm: rocky fixture x {rsaA,rsaB} x {sha1,sha256,sha512}",
+		"other":  "cat (hyperv.cat), appx (App1), xap (dummy.xap) x keys x sha256 (+RFC 3161 on rsaA): CMS checks only",
+		"macho":  "shapes: gen/machogen family (fixture slices verbatim / signature stripped / __LINKEDIT grown to page multiple -1, 0, +1; thorough: more pads, from-scratch 32/64-bit images with 1..3 text pages and __LINKEDIT of 0,1,8,4095,4096,4097 bytes) + harness-written PowerPC big-endian images 32/64 bit (signed with -T mach-o: relic detects only little-endian magic) ; options: every subset of {hardened-runtime=false, entitlements, info-plist, requirements, resources, bundle-id} (64). quick: all shapes x {rsaA,p256A} x sha256 x 12 option sets (each option alone, usual pairs, all)  U  canonical x {rsaA,p256A,p384} x {sha1,sha256,sha384} x 12 sets (+openssl dgst)  U  canonical x rsaA x sha256 x 64 sets  U  RFC 3161 x {rsaA,p256A} x 2 sets  U  3 certificate-file shapes  U  refusals {sha512, sha224, md5, fat file}. thorough: all shapes x {rsaA,p256A,p384} x {sha1,sha256,sha384} x 4 sets  U  all shapes x rsaA x sha256 x 64 sets  U  canonical x {rsaA,p256A,p384} x {sha1,sha256,sha384} x 64 sets",
+		"dmg":    "shapes: gen/dmggen family (data fork ladder around 512 B / 4 KiB / 64 KiB / 1 MiB, plist > 4 KiB, no checksums, gaps before XML / trailer, dummy.dmg and data-fork-grown edits) x {rsaA,p256A} x sha256 x {requirements} x {bundle-id}  U  canonical x {rsaA,p256A,p384} x {sha1,sha256,sha384} x 4 sets (+openssl dgst)  U  RFC 3161  U  certificate-file shapes  U  input already signed by rsaB  U  refusals {sha512, sha224}. thorough: all shapes x {rsaA,p256A,p384} x {sha1,sha256,sha384} x 4 sets",
+		"xar":    "shapes: gen/xargen family (file count, nested directory, empty member, TOC checksum style sha1/sha256/sha512, member checksum style, size ladder stored/zlib, already carrying a classic signature by rsaB, lenient: 32-byte header, md5, no checksum; dummy.pkg) x {rsaA,p256A (+p384,p521 thorough)} x {sha1,sha256,sha512}  U  canonical x p384  U  RFC 3161  U  certificate-file shapes  U  refusals {sha384, sha224, md5}",
+		"cosign": "shapes: gen/ocigen family (OCI manifest / index, Docker v2 manifest / list, 0/3 layers, pretty-printed, annotation padding to 64 KiB+1, 1 MiB+1, just under and over 4 MiB, no mediaType member; thorough: media type x items 0..3 x pretty x pad ladder) x {rsaA,p256A} x sha256 x {optional JSON}  U  canonical x {rsaA,p256A,p384} x {sha256,sha384,sha512}  U  RFC 3161  U  certificate-file shapes  U  refusals {sha1, sha224}. thorough: all shapes x {rsaA,p256A,p384} x sha256 x {optional}  U  one shape per class x {rsaA,p256A,p384,p521} x {sha384,sha512} x {optional}",
+		"tier":   map[bool]string{false: "quick", true: "thorough"}[thorough],
 	}
 }
 
